@@ -3,6 +3,7 @@ C14-WIRE (DESIGN.md §3). The wall-clock clause is not decided (timing)."""
 from facts import (norm, show, walk, strip_refs, deep_strip, is_call_to, callee_name, find_calls, guard_conditions,
                    cmp_op, const_str, substitute_args, decision_paths)
 import pC05
+import shared_mutants
 
 EXPLANATION = (
     "Decides the limit clauses of C14 by dataflow and constants, not the wall-clock clause: (CAP) in the clocks arm "
@@ -257,11 +258,23 @@ def analyse_new(fx, rep, new):
                 bb = d[1]
                 if d[0] == "stmt":
                     rvd = d[3]["rv"]
-                    e = new.expr(rvd.get("op"), expand_named=True, at=bb) if rvd["k"] == "use" else ("rv", rvd["k"])
+                    if rvd["k"] == "agg" and rvd.get("agg") == "adt" and norm(rvd["adt"]).endswith("Option") and rvd.get("variant") == "Some" and len(rvd["ops"]) == 1:
+                        # an Option-typed limit: `limit = Some(value)`; None (no limit) has no value to check
+                        e = new.expr(rvd["ops"][0], expand_named=True, at=bb)
+                    elif rvd["k"] == "agg" and rvd.get("agg") == "adt" and norm(rvd["adt"]).endswith("Option") and rvd.get("variant") == "None":
+                        continue
+                    else:
+                        e = new.expr(rvd.get("op"), expand_named=True, at=bb) if rvd["k"] == "use" else ("rv", rvd["k"])
                 else:
                     t = d[2]
                     e = ("call", norm(callee_name(t)), tuple(new.expr(a, expand_named=True, at=bb) for a in t["args"]))
                 cands.append((bb, e))
+        def unsome(e):
+            d = deep_strip(e)
+            if isinstance(d, tuple) and d and d[0] == "agg" and str(d[1]).endswith("Option::Some") and len(d[2]) == 1:
+                return d[2][0]  # an Option-typed limit: `limit = Some(value)`
+            return e
+        cands = [(bb, unsome(e)) for bb, e in cands if not (isinstance(deep_strip(e), tuple) and deep_strip(e)[:1] == ("agg",) and str(deep_strip(e)[1]).endswith("Option::None"))]
         for bb, e in cands:
             arm = arm_of(fx, new, bb, 2, "search::TimeControl")
             per_arm.setdefault(arm, []).append((bb, e))
@@ -424,6 +437,13 @@ def rule_use(fx, rep):
                 if isinstance(e, tuple) and e[0] == "discr" and isinstance(e[1], tuple) and e[1][0] == "field" and e[1][2] == "time_control":
                     for v, tg in t["targets"]:
                         found[variants.get(v)] = tg
+        if not found:
+            # no `match self.time_control`: decide the function path by path instead (pC05.limit_verdicts): the answers that
+            # consult the clock compare elapsed time in the right direction, and "no limit" is selected by the limit's kind
+            g_ok, g_n = generic_use(fx, rep, fn, b, table)
+            n += g_n
+            ok = ok and g_ok
+            continue
         for arm, (op, what) in table.items():
             n += 1
             tg = found.get(arm)
@@ -460,6 +480,59 @@ def rule_use(fx, rep):
                 rep.violation("C14-USE", f"C14-USE/{fn}/{arm}", f"`{fn}` in the {arm} arm {why}", {"fn": b.name, "file": b.file, "line": b.line})
     # depth 1 is always started: checked under C09-POLL
     rep.rule("C14-USE", n, 6, ok, "limits compared with elapsed time per arm")
+
+
+def generic_use(fx, rep, fn, b, table):
+    findings, n0, notes = pC05.limit_verdicts(fx)
+    ok = True
+    n = 0
+    for f, key, msg in findings:
+        if f == fn:
+            ok = False
+            rep.violation("C14-USE", "C14-USE/" + key, msg, {"fn": b.name, "file": b.file, "line": b.line})
+    for x in notes:
+        if x.startswith(f"`{fn}`"):
+            rep.notes.append("C14-USE: " + x)
+    want = table["Clocks"][0]
+    paths = list(decision_paths(b, max_paths=400) or [])
+    # answers computed by a closure handed to an Option combinator (`limit.is_some_and(|l| elapsed > l)`)
+    closures = []
+    for conds, ret, _bb in list(paths):
+        for x in walk(ret) if ret is not None else []:
+            if isinstance(x, tuple) and x and x[0] == "agg" and str(x[1]).startswith("closure:"):
+                cb = fx.bodies.get(str(x[1])[len("closure:"):])
+                if cb is not None and cb.name not in closures:
+                    closures.append(cb.name)
+                    paths += list(decision_paths(cb, max_paths=100) or [])
+    clocked = 0
+    for conds, ret, _bb in paths:
+        if ret is None:
+            continue
+        co = cmp_op(deep_strip(ret))
+        if not co:
+            continue
+        o, x, y = co[0], deep_strip(co[1]), deep_strip(co[2])
+        ex, ey = bool(find_calls(x, "TimeStrategy::elapsed", "Instant::elapsed")), bool(find_calls(y, "TimeStrategy::elapsed", "Instant::elapsed"))
+        if ex == ey:
+            continue
+        clocked += 1
+        n += 1
+        flip = {"Gt": "Lt", "Lt": "Gt", "Ge": "Le", "Le": "Ge"}
+        eff = o if ex else flip.get(o)
+        good = eff in (want, {"Gt": "Ge", "Lt": "Le"}[want])
+        rep.obligation(good)
+        if not good:
+            ok = False
+            rep.violation("C14-USE", f"C14-USE/{fn}/direction", f"`{fn}` answers `{show(ret)[:100]}`; expected elapsed {'>' if want == 'Gt' else '<'} limit", {"fn": b.name, "file": b.file, "line": b.line})
+    if clocked == 0:
+        reads = b.calls_to("TimeStrategy::elapsed") or b.calls_to("Instant::elapsed") or any(fx.bodies[c].calls_to("TimeStrategy::elapsed") for c in closures)
+        if not reads:
+            ok = False
+            rep.violation("C14-USE", f"C14-USE/{fn}/no-clock", f"`{fn}` never reads the elapsed time: no time limit is enforced there", {"fn": b.name, "file": b.file, "line": b.line})
+        else:
+            rep.notes.append(f"C14-USE: `{fn}` reads the clock but none of its answers is a recognisable comparison of elapsed time with a limit; not decided")
+    rep.sample({"rule": "C14-USE", "fn": fn, "form": "path-wise (no match on the time control)", "clocked_answers": clocked})
+    return ok, max(n, 3)
 
 
 def arm_return_value(b, tg):
@@ -633,6 +706,9 @@ S = "src/engine/search/mod.rs"
 U = "src/engine/uci/mod.rs"
 P = "src/engine/uci/parser.rs"
 MUTANTS = [
+    {"name": "benign: Option-typed limits (match form)", "benign": True, "edits": shared_mutants.OPT_MATCH},
+    {"name": "benign: Option-typed limits (closure form)", "benign": True, "edits": shared_mutants.OPT_CLOSURES},
+    {"name": "Option-typed hard limit left None for a fixed move time", "expect": "C14-EXACT", "edits": shared_mutants.OPT_BAD},
     {"name": "quiescence no longer polls the time limits (seed C14-4a)", "expect": "C14-POLL",
      "edits": [("src/engine/search/quiescence.rs", "    if ctx.time_control.should_stop(ctx.nodes_visited) {\n        return Err(());\n    }\n\n", "")]},
     {"name": "increments or movestogo alone select the clock search over movetime (seed C14-3)", "expect": "C14-SELECT/ExactTime-as-Clocks",
